@@ -40,6 +40,7 @@ const (
 	fpPrimaryEarlyStop = "C03:primary-second-filter-stops-scan"
 	fpBinaryPrefixSeek = "C03:binary-primary-prefix-seek"
 	fpSplitIDMissing   = "C03:missing-splitid-attribute-fails-search"
+	fpAbsentPanic      = "C03:not-present-on-primary-attribute-panics"
 )
 
 // target abstracts meta.DB and shard.Shard.
@@ -141,7 +142,7 @@ func paginate(tg *target, cnr cid.ID, q refsearch.Query, p uint16, maxPages int)
 		if err != nil {
 			return all, page, &pageErr{page: page, cursor: cursor, err: err, prep: true}
 		}
-		items, next, err := tg.search(cnr, ofs, q.Attrs, cur, p)
+		items, next, err := safeSearch(tg, cnr, ofs, q.Attrs, cur, p)
 		if err != nil {
 			return all, page, &pageErr{page: page, cursor: cursor, err: err}
 		}
@@ -159,6 +160,17 @@ func paginate(tg *target, cnr cid.ID, q refsearch.Query, p uint16, maxPages int)
 		}
 		cursor = base64.StdEncoding.EncodeToString(next)
 	}
+}
+
+// safeSearch converts a panic of the code under test into an error so that it
+// is reported with the query (and can be matched against known findings).
+func safeSearch(tg *target, cnr cid.ID, ofs []objectcore.SearchFilter, attrs []string, cur *objectcore.SearchCursor, p uint16) (items []client.SearchResultItem, next []byte, err error) {
+	defer func() {
+		if r := recover(); r != nil {
+			err = fmt.Errorf("PANIC in search: %v", r)
+		}
+	}()
+	return tg.search(cnr, ofs, attrs, cur, p)
 }
 
 func fmtItems(v []refsearch.Item) string {
@@ -219,6 +231,14 @@ func classify(view []refsearch.Obj, q refsearch.Query) []string {
 		for _, f := range q.Filters[1:] {
 			if f.Key == q.Filters[0].Key && f.Op != refsearch.OpNE {
 				r = append(r, fpPrimaryEarlyStop)
+				break
+			}
+		}
+	}
+	if len(q.Attrs) > 0 && len(q.Filters) > 1 && !refsearch.IDOrdered(q) {
+		for _, f := range q.Filters[1:] {
+			if f.Key == q.Filters[0].Key && f.Op == refsearch.OpAbsent {
+				r = append(r, fpAbsentPanic)
 				break
 			}
 		}
